@@ -643,7 +643,7 @@ fn run_shard(ctx: &ShardCtx, acc: &mut Acc) {
     KNOWN.with(|k| {
         *k.borrow_mut() = ctx.known.known.iter().filter(|f| f.property == "C02").map(|f| f.signature.clone()).collect();
     });
-    drive(ctx, "orders", tier.pick(1_500, 20_000), 700, acc, &|ch, acc| {
+    drive(ctx, "orders", tier.pick(3_000, 40_000), 700, acc, &|ch, acc| {
         let permissive = ch.chance(1, 3);
         let (name, code): (&str, Vec<u8>) = match ch.below(10) {
             0..=1 => ("clash", g_clash(ch, true).code()),
